@@ -31,8 +31,10 @@ func c11Run(paged bool) {
 	m := n - k // events after the start offset
 
 	failAt := -1
+	errReadEOFShaped = false
 	if fault == 4 {
 		failAt = at
+		errReadEOFShaped = vBool() // the store's failure also wraps io.EOF
 	}
 	var store EventStore
 	var po *pagedOnly
@@ -114,7 +116,7 @@ func c11Run(paged bool) {
 	vAssert(handlerRuns == 0, "handlers-not-invoked")
 }
 
-//verif:entry property=C11 tier=both bounds="paged store (pages optionally capped at 1 or 2 events regardless of the limit): log length n<=N, start index k<=n, batch size b in [-1,N+1], one fault of 5 kinds at position at<=N" cover="nil-complete,err-prefix" N_quick=3 N_thorough=5
+//verif:entry property=C11 tier=both bounds="paged store (pages optionally capped at 1 or 2 events regardless of the limit): log length n<=N, start index k<=n, batch size b in [-1,N+1], one fault of 5 kinds at position at<=N (a store failure may also wrap io.EOF)" cover="nil-complete,err-prefix" N_quick=3 N_thorough=5
 func harnessC11Paged() { c11Run(true) }
 
 //verif:entry property=C11 tier=both bounds="streaming memory store: log length n<=N, start index k<=n, one fault of 5 kinds at position at<=N" cover="nil-complete,err-prefix" N_quick=3 N_thorough=6
